@@ -50,7 +50,7 @@ Shape(t) ==
     [] t.k = "struct" -> StructS([i \in 1..Len(StructDefs[t.n]) |-> Shape(StructDefs[t.n][i])])
     [] t.k \in {"opq", "opqmut", "optopq", "box", "optbox", "write"} -> PtrS      \* an absent optional pointer is NULL
     [] t.k = "opt" -> FlaggedS(IF t.t.k = "unit" THEN <<>> ELSE <<Shape(t.t)>>)
-    [] t.k \in {"slice", "str"} -> ViewS
+    [] t.k \in {"slice", "str", "strs"} -> ViewS                   \* strs: &[DiplomatStrSlice] -- a {ptr, len} view of {ptr, len} views
     [] t.k = "res" -> FlaggedS((IF t.ok.k = "unit" THEN <<>> ELSE <<Shape(t.ok)>>) \o (IF t.err.k = "unit" THEN <<>> ELSE <<Shape(t.err)>>))
     [] t.k = "unit" -> VoidS
     [] t.k = "cb" -> StructS(<<PtrS, PtrS, PtrS>>)          \* {data, run_callback, destructor}
